@@ -106,7 +106,7 @@ class TlcResult:
         m = re.search(r"Invariant (\w+) is violated", self.text) or re.search(r"Action property (\w+) is violated", self.text)
         if m:
             return m.group(1)
-        if "Temporal properties were violated" in self.text:
+        if re.search(r"Temporal propert(y|ies) .*violated", self.text):
             return "temporal"
         return None
 
